@@ -14,6 +14,8 @@
 //   c07.satsub <mode> <BAw> <xs> <ys>               -> <values> <flag>
 //   c07.select <mode> <BAw> <conds> <ts> <fs>       -> <values> <flag>
 //   c07.agg <mode> <B> <w> <tv> <row/row/…>         (B columns, output width w, input width tv) -> <values> <flag>
+//   c07.merge sh <S> <row/row/…>                    (S shards, one row of 16 BA8 bucket values per shard; the leader's
+//                                                    merged histogram after `FinalizerContext::finalize`) -> 8 <values> ok
 //   c07.orf <Field> <as> <bs>                       -> <values> <flag>     (a, b in {0,1})
 //   c07.known <Field> <v>                           -> <v> <flag>
 //   c07.reshare <Field> <to> <vs>                   -> <values> <flag>
@@ -38,7 +40,7 @@ use crate::{
     helpers::Role,
     protocol::{
         RecordId,
-        basics::{Reshare, SecureMul, ShareKnownValue, select},
+        basics::{Reshare, SecureMul, ShareKnownValue, select, shard_fin::{FinalizerContext, Histogram}},
         boolean::{and::bool_and_8_bit, or::bool_or, or::or, step::DefaultBitStep},
         context::{Context, TEST_DZKP_STEPS, UpgradableContext, dzkp_validator::DZKPValidator},
         ipa_prf::{
@@ -58,7 +60,7 @@ use crate::{
         replicated::{ReplicatedSecretSharing, semi_honest::AdditiveShare},
     },
     seq_join::{SeqJoin, seq_join},
-    test_fixture::{Runner, TestWorld, TestWorldConfig},
+    test_fixture::{Reconstruct, Runner, TestWorld, TestWorldConfig, WithShards},
 };
 
 const RUN_TIMEOUT_S: u64 = 60;
@@ -453,6 +455,50 @@ fn agg_dispatch(req: &str, mode: &str, b: usize, w: usize, tv: usize, rows: &[Ve
 }
 
 
+// ---------------------------------------------------------------- cross-shard histogram merge (protocol/basics/shard_fin.rs)
+// `ctx.finalize(steps, Histogram)` on S shards: every shard sends its histogram to the leader, which folds them with
+// `Histogram::merge` (= `integer_sat_add` per bucket). Inputs are dealt round-robin: item j goes to shard j % S.
+macro_rules! merge_fn {
+    ($fname:ident, $S:literal) => {
+        fn $fname(req: &str, rows: &[Vec<u128>]) -> String {
+            const S: usize = $S;
+            let input: Vec<BA8> =
+                (0..16 * S).map(|j| BA8::truncate_from(rows[j % S].get(j / S).copied().unwrap_or(0))).collect();
+            let res = block_on_timeout(RUN_TIMEOUT_S + 5, async {
+                let w: TestWorld<WithShards<S>> = TestWorld::with_shards(
+                    TestWorldConfig::default().with_seed(seed_of(req)).with_timeout_secs(RUN_TIMEOUT_S),
+                );
+                let results = w
+                    .semi_honest(input.into_iter(), |ctx, input: Vec<AdditiveShare<BA8>>| async move {
+                        let h = Histogram::<BA8, 16>::new(&input).unwrap();
+                        ctx.finalize(TEST_DZKP_STEPS, h).await.unwrap()
+                    })
+                    .await;
+                let leader: Vec<BA8> = results[0].reconstruct();
+                leader.iter().map(U128Conversions::as_u128).collect::<Vec<u128>>()
+            });
+            match res {
+                Ok(v) => format!("8 {} ok", nat_list(&v)),
+                Err(e) => e,
+            }
+        }
+    };
+}
+merge_fn!(merge_sh_2, 2);
+merge_fn!(merge_sh_3, 3);
+merge_fn!(merge_sh_4, 4);
+
+fn merge_dispatch(req: &str, mode: &str, s: usize, rows: &[Vec<u128>]) -> String {
+    assert!(rows.len() == s, "harness: c07.merge needs one row per shard");
+    match (mode, s) {
+        ("sh", 2) => merge_sh_2(req, rows),
+        ("sh", 3) => merge_sh_3(req, rows),
+        ("sh", 4) => merge_sh_4(req, rows),
+        _ => panic!("harness: no finalize instantiation for mode {mode} S={s}"),
+    }
+}
+
+
 // ---------------------------------------------------------------- bit-to-field share conversion (256 lanes -> 16 x 16)
 macro_rules! conv_fn {
     ($fname:ident, $method:ident, $chunk:expr) => {
@@ -628,6 +674,10 @@ pub fn exec(req: &str) -> String {
         "c07.agg" => {
             let rows: Vec<Vec<u128>> = if t[5] == "-" { vec![] } else { t[5].split('/').map(l).collect() };
             agg_dispatch(req, t[1], u(t[2]), u(t[3]), u(t[4]), &rows)
+        }
+        "c07.merge" => {
+            let rows: Vec<Vec<u128>> = t[3].split('/').map(l).collect();
+            merge_dispatch(req, t[1], u(t[2]), &rows)
         }
         _ => panic!("harness: unknown request {req}"),
     }
@@ -913,6 +963,41 @@ fn gen_agg(rng: &mut Rng, thorough: bool, out: &mut Vec<String>) {
         }
     }
     gen_agg_carry(rng, thorough, out);
+    gen_merge(rng, thorough, out);
+}
+
+/// Cross-shard merge of per-shard histograms (8-bit buckets): every per-shard value fits, the sums sit below, at and above
+/// the saturation point (seed C07h: the merge wrapped instead of saturating).
+fn gen_merge(rng: &mut Rng, thorough: bool, out: &mut Vec<String>) {
+    let shard_counts: &[usize] = if thorough { &[2, 3, 4] } else { &[2, 3] };
+    for &s in shard_counts {
+        let reps = if thorough { 6 } else { 2 };
+        for rep in 0..reps {
+            let data: Vec<Vec<u128>> = (0..s)
+                .map(|i| {
+                    (0..16usize)
+                        .map(|k| match k {
+                            0 => 0,
+                            1 => 255,                                        // every shard at the maximum
+                            2 => if i == 0 { 255 } else { 0 },               // exactly the maximum, no overflow
+                            3 => if i == 0 { 255 } else { 1 },               // one above
+                            4 => if i == 0 { 250 } else if i == 1 { 5 } else { 0 },   // sum = 255
+                            5 => if i == 0 { 250 } else if i == 1 { 5 } else { 1 },   // sum = 256 (S > 2)
+                            6 => if i == 0 { 200 } else if i == 1 { 100 } else { 3 }, // wraps to a small value if not saturating
+                            7 => 128,                                        // top bit in every shard
+                            8 => if i + 1 == s { 255 } else { 1 },           // overflow only at the last merge
+                            9 => 255 / (s as u128),                          // just below / at the limit
+                            10 => 255 / (s as u128) + 1,                     // just above
+                            11 => u128::from(i == rep % s),                  // a single one
+                            _ => rand_bits(rng, 8),
+                        })
+                        .collect()
+                })
+                .collect();
+            let enc = data.iter().map(|r| nat_list(r)).collect::<Vec<_>>().join("/");
+            out.push(format!("c07.merge sh {s} {enc}"));
+        }
+    }
 }
 
 /// The carry-keeping phase of the tree (`a.len() < OV::BITS`: `integer_add` + `sum.push(carry)`) with an
